@@ -224,8 +224,7 @@ func (p *Program) modSetOfLocked(cs *ContractSet, fn *ssa.Function) *ModSet {
 					p.storeEffect(ms, normalizeAddr(x.Addr))
 					ms.curFresh = false
 				case *ssa.MapUpdate:
-					_, mk := x.Map.(*ssa.MakeMap)
-					ms.curFresh = mk
+					ms.curFresh = freshMapValue(x.Map)
 					ms.addMap(x.Map.Type().Underlying().(*types.Map))
 					ms.curFresh = false
 				case *ssa.Send, *ssa.Select, *ssa.Go:
@@ -251,6 +250,39 @@ func (p *Program) modSetOfLocked(cs *ContractSet, fn *ssa.Function) *ModSet {
 // freshRoot: the address is rooted at an object allocated by this function
 // activation itself (Alloc / new / make), so the store cannot change any
 // object that existed when the function was called.
+// freshMapValue: the map operand is a map made by this function: a MakeMap, or
+// the contents of a local variable whose every assignment is a MakeMap
+// (NaiveForm keeps `m := make(...)` in a local cell).
+func freshMapValue(v ssa.Value) bool {
+	switch x := v.(type) {
+	case *ssa.MakeMap:
+		return true
+	case *ssa.UnOp:
+		a, ok := x.X.(*ssa.Alloc)
+		if !ok || a.Heap {
+			return false
+		}
+		n := 0
+		for _, ref := range *a.Referrers() {
+			switch r := ref.(type) {
+			case *ssa.Store:
+				if r.Addr != a {
+					return false // the cell's address escapes into another store
+				}
+				if _, ok := r.Val.(*ssa.MakeMap); !ok {
+					return false
+				}
+				n++
+			case *ssa.UnOp, *ssa.DebugRef:
+			default:
+				return false
+			}
+		}
+		return n > 0
+	}
+	return false
+}
+
 func freshRoot(v ssa.Value) bool {
 	for {
 		switch x := v.(type) {
